@@ -259,18 +259,35 @@ _blk = re.compile(r"Checking harness (\S+?)\.\.\.")
 
 
 def parse_kani(out):
+    """Parse terse output of a (possibly parallel, -j) run: lines are attributed by `Thread N:`."""
     res = {}
-    cur = None
+    cur_of_thread = {}
     buf = {}
+    active = None   # harness whose result block is being printed
     for ln in out.split("\n"):
-        ln2 = re.sub(r"^Thread \d+: ", "", ln)
-        m = _blk.search(ln2)
-        if m:
-            cur = m.group(1)
-            buf[cur] = []
+        mt = re.match(r"^Thread (\d+): ?(.*)$", ln)
+        if mt:
+            tid, rest = mt.group(1), mt.group(2)
+            m = _blk.search(rest)
+            if m:
+                cur_of_thread[tid] = m.group(1)
+                buf.setdefault(m.group(1), [])
+                active = None
+            else:
+                active = cur_of_thread.get(tid)
+                if active is not None and rest:
+                    buf[active].append(rest)
             continue
-        if cur:
-            buf[cur].append(ln2)
+        m = _blk.search(ln)
+        if m:  # sequential (non -j) format
+            active = m.group(1)
+            buf.setdefault(active, [])
+            continue
+        if ln.startswith("Manual Harness Summary") or ln.startswith("Complete - "):
+            active = None
+            continue
+        if active is not None:
+            buf[active].append(ln)
     for h, lines in buf.items():
         t = "\n".join(lines)
         r = {"harness": h}
@@ -323,7 +340,7 @@ def run_kani(harnesses, package=None, flags=None, timeout=600, jobs=8, repo=None
         return {h: {"harness": h, "status": "undecided", "reason": f"prepare failed: {e}"} for h in harnesses}, {"wall_s": 0}
     prepared = json.load(open(os.path.join(sc, ".prepared")))
     cmd = ["cargo", "kani", "--output-format", "terse", "-j", str(jobs), "--harness-timeout", f"{timeout}s",
-           "-Z", "function-contracts", "-Z", "stubbing", "-Z", "mem-predicates"]
+           "-Z", "function-contracts", "-Z", "stubbing", "-Z", "mem-predicates", "-Z", "unstable-options"]
     if package:
         cmd += ["-p", package]
     cmd += flags or []
